@@ -125,6 +125,10 @@ type checkResult struct {
 	loadSecs    float64
 }
 
+// repoRootOverride: the check runs against a scratch copy (seeded-change corpus); its scratch and replay files go
+// to per-process directories so that it cannot disturb a concurrent run against /repo.
+var repoRootOverride bool
+
 func cmdCheck(args []string) {
 	fs := flag.NewFlagSet("check", flag.ExitOnError)
 	repo := fs.String("repo", "/repo", "repository root")
@@ -139,6 +143,7 @@ func cmdCheck(args []string) {
 		os.Exit(2)
 	}
 	id := fs.Arg(0)
+	repoRootOverride = filepath.Clean(*repo) != "/repo"
 	if *tier == "" {
 		*tier = os.Getenv("VERIF_TIER")
 	}
@@ -382,9 +387,17 @@ func runProperty(repo, mirror, id string, timeout int, tier string) *checkResult
 	for _, n := range cs.Notes {
 		res.notes[n] = true
 	}
+	// one scratch directory per process, so that two runs of the same check (e.g. the seeded-change corpus and a
+	// developer run) cannot delete each other's SMT files; runs against another repository root use their own name
 	workDir := filepath.Join(verifRoot, "work", id)
+	if repoRootOverride {
+		workDir = filepath.Join(verifRoot, "work", fmt.Sprintf("%s-alt%d", id, os.Getpid()))
+	}
 	os.RemoveAll(workDir)
 	os.MkdirAll(workDir, 0o755)
+	if repoRootOverride {
+		defer os.RemoveAll(workDir)
+	}
 
 	type job struct {
 		g *Gen
@@ -555,6 +568,9 @@ type replayResult struct {
 
 func writeReplay(repo, id, name, reason string, o *Oblig) replayResult {
 	dir := filepath.Join(verifRoot, "replay", id)
+	if repoRootOverride {
+		dir = filepath.Join(verifRoot, "replay", fmt.Sprintf("%s-alt%d", id, os.Getpid()))
+	}
 	os.MkdirAll(dir, 0o755)
 	path := filepath.Join(dir, sanitize(name)+".json")
 	rec := map[string]interface{}{
